@@ -26,19 +26,34 @@ RENAME = {'C10_Annotation': 'C11_AnnotationNotTheAgreedDenotation', 'C10_OuterMe
           'C10_PartialOthersKept': 'C11_PartialAnnotationNotKept'}
 
 
+MODULE_OF = {1: 1, 2: 2, 3: 1}       # 'modules' mode: the first and the third function live in one module (ONE globals dict), the second in another
+
+
 def denote(slot, a, per_function):
-    return 0 if not a else (10 * slot + a if per_function else a)
+    if not a:
+        return 0
+    if per_function == 'modules':
+        return 10 * MODULE_OF.get(slot, slot) + a
+    return 10 * slot + a if per_function else a
 
 
 class AnnWorld:
-    """real functions for abstract signatures, compiled eagerly or with the future flag, with shared or per-function globals"""
+    """real functions for abstract signatures, compiled eagerly or with the future flag, with shared globals bindings, per-function
+    globals, or two modules (per_function == 'modules')"""
 
     def __init__(self, future, per_function):
         self.future, self.per_function = future, per_function
         self.cache = {}
+        self.modules = {}
 
-    def func(self, ps, slot):
+    def func(self, ps, slot, ret=None):
+        if self.per_function == 'modules':
+            m = MODULE_OF.get(slot, slot)
+            g = self.modules.setdefault(m, {'A%d' % a: absig.AN[10 * m + a] for a in (1, 2)})
+            return absig.make_func(ps, name='f%d' % slot, future=self.future, ret=ret, share_globals=g)
         g = {'A%d' % a: absig.AN[denote(slot, a, self.per_function)] for a in (1, 2)}
+        if ret:
+            return absig.make_func(ps, name='f%d' % slot, extra_globals=g, future=self.future, ret=ret)
         # the defining context is the function's OWN globals: give it the __name__ of a loaded module that binds none of these names
         # (code exec'd into a namespace, a function kept after its module was re-imported)
         if self.per_function and slot % 2 == 0:
@@ -141,13 +156,15 @@ def annotate_event(tid, ps, future, rnd):
     from sigtools import modifiers, signatures
     import sigtools
     w = AnnWorld(future, True)
-    f = w.func(ps, 1)
+    own_ret = rnd.random() < 0.5          # the function has a return annotation of its own and annotate() is given parameters only
+    f = w.func(ps, 1, ret='A2' if own_ret else None)
     named = [p['n'] for p in ps if p['k'] not in ('var', 'vkw')]
     chosen = rnd.sample(named, rnd.randrange(1, len(named) + 1)) if named else []
     vals = {n: absig.AN[30 + k] for k, n in enumerate(chosen)}
     ret = absig.AN[38]
+    wantret = denote(1, 2, True) if own_ret else 38
     try:
-        d = modifiers.annotate(ret, **vals)(f)
+        d = modifiers.annotate(**vals)(f) if own_ret else modifiers.annotate(ret, **vals)(f)
         s = sigtools.signature(d)
         got = project_sv(s)
         gotret = sv_id(s.upgraded_return_annotation)
@@ -155,7 +172,7 @@ def annotate_event(tid, ps, future, rnd):
     except Exception as e:  # noqa
         got, gotret, tag = [], 0, 'other'
     want = [dict(p, an=(30 + chosen.index(p['n']) if p['n'] in chosen else denote(1, p['an'], True))) for p in ps]
-    return {'tid': tid, 'op': 'law', 'law': 'C11_AnnotateValuesNotVerbatim', 'cmp': 'ps', 'pre': 'none', 'side': gotret == 38, 'ins': [],
+    return {'tid': tid, 'op': 'law', 'law': 'C11_AnnotateValuesNotVerbatim', 'cmp': 'ps', 'pre': 'none', 'side': gotret == wantret, 'ins': [],
             'results': [{'tag': 'sig', 'ps': want}, {'tag': tag, 'ps': [dict(q, dv=p['dv']) for q, p in zip(got, ps)] if tag == 'sig' else []}],
             'case': {'op': 'annotate', 'ins': [ps], 'future': future, 'chosen': chosen}}
 
@@ -166,7 +183,7 @@ def gen(UM, seed, n):
         k = 0
         for _ in range(n):
             op = rnd.choice(['merge', 'merge', 'merge3', 'embed', 'mask', 'forwards'])
-            future, per_function = rnd.random() < 0.75, rnd.random() < 0.75
+            future, per_function = rnd.random() < 0.75, rnd.choice([True, True, 'modules', 'modules', False])
             ar = {'merge': 2, 'merge3': 3, 'embed': 2, 'mask': 1, 'forwards': 2}[op]
             pss = [UM[rnd.randrange(len(UM))] for _ in range(ar)]
             if op == 'forwards' and not alggen.has_star(pss[0]):
